@@ -47,6 +47,7 @@ struct Reply {
     getrandom_in_generate: u64,
     clock_reads_in_generate: u64,
     getenv_in_generate: u64,
+    threads_spawned: u64,
     canary: u64,
 }
 
@@ -98,6 +99,7 @@ impl SimThread {
                             let g0 = GETRANDOM_IN_GENERATE.load(Ordering::SeqCst);
                             let c0 = CLOCK_READS_IN_GENERATE.load(Ordering::SeqCst);
                             let e0 = GETENV_IN_GENERATE.load(Ordering::SeqCst);
+                            let s0 = THREADS_SPAWNED_IN_GENERATE.load(Ordering::SeqCst);
                             TL_ENV_SALT.with(|s| s.set(env_salt));
                             TL_IN_GENERATE.with(|f| f.set(true));
                             let outcome = run_generate(&text);
@@ -106,6 +108,7 @@ impl SimThread {
                             let g1 = GETRANDOM_IN_GENERATE.load(Ordering::SeqCst);
                             let c1 = CLOCK_READS_IN_GENERATE.load(Ordering::SeqCst);
                             let e1 = GETENV_IN_GENERATE.load(Ordering::SeqCst);
+                            let s1 = THREADS_SPAWNED_IN_GENERATE.load(Ordering::SeqCst);
                             let canary = canary_order();
                             let _ = rtx.send(Reply {
                                 seq: 0,
@@ -113,6 +116,7 @@ impl SimThread {
                                 getrandom_in_generate: g1 - g0,
                                 clock_reads_in_generate: c1 - c0,
                                 getenv_in_generate: e1 - e0,
+                                threads_spawned: s1 - s0,
                                 canary,
                             });
                         }
@@ -124,6 +128,7 @@ impl SimThread {
                                 getrandom_in_generate: 0,
                                 clock_reads_in_generate: 0,
                                 getenv_in_generate: 0,
+                                threads_spawned: 0,
                                 canary,
                             });
                         }
@@ -198,6 +203,7 @@ fn start_call_watchdog() {
                         getrandom_in_generate: 0,
                         clock_reads_in_generate: 0,
                         getenv_in_generate: 0,
+                        threads_spawned: 0,
                         canary: 0,
                     });
                     *w = None;
@@ -243,6 +249,7 @@ struct CallRecord {
     getrandom_in_generate: u64,
     clock_reads_in_generate: u64,
     getenv_in_generate: u64,
+    threads_spawned: u64,
     nth_call_on_thread: usize,
 }
 
@@ -320,6 +327,7 @@ fn exec_script(script: &Script, texts: &[Arc<str>], base_dir: &str, upto: Option
                     getrandom_in_generate: 0,
                     clock_reads_in_generate: 0,
                     getenv_in_generate: 0,
+                    threads_spawned: 0,
                     nth_call_on_thread: calls[st.inc],
                 });
                 break;
@@ -331,6 +339,7 @@ fn exec_script(script: &Script, texts: &[Arc<str>], base_dir: &str, upto: Option
             getrandom_in_generate: r.getrandom_in_generate,
             clock_reads_in_generate: r.clock_reads_in_generate,
             getenv_in_generate: r.getenv_in_generate,
+            threads_spawned: r.threads_spawned,
             nth_call_on_thread: calls[st.inc],
         });
     }
@@ -867,6 +876,15 @@ fn probe() -> Result<J, String> {
         return Err("getenv does not answer from the real environment outside a simulated call".into());
     }
     std::env::remove_var("KIKI_VERIF_PROBE_VAR");
+    // (2c) thread creation inside a simulated call is observed
+    let s0 = THREADS_SPAWNED_IN_GENERATE.load(Ordering::SeqCst);
+    TL_IN_GENERATE.with(|f| f.set(true));
+    let h = std::thread::spawn(|| 1u8);
+    TL_IN_GENERATE.with(|f| f.set(false));
+    let _ = h.join();
+    if THREADS_SPAWNED_IN_GENERATE.load(Ordering::SeqCst) != s0 + 1 {
+        return Err("interposed pthread_create does not observe thread creation".into());
+    }
     // (3) the real clock is still reachable for accounting
     let a = real_now_s();
     if a <= 0.0 {
@@ -945,6 +963,8 @@ fn main() {
             let mut timeout_texts: BTreeSet<usize> = BTreeSet::new();
             let mut firstcall_violations: Vec<J> = vec![];
             let mut firstcall_children = 0u64;
+            let mut threads_spawned_total = 0u64;
+            let mut amplified_runs = 0u64;
             let mut multi_violation_texts: BTreeSet<usize> = BTreeSet::new();
             let mut suffix_path_texts: BTreeSet<usize> = BTreeSet::new();
             let mut conflict_texts: BTreeSet<usize> = BTreeSet::new();
@@ -1058,8 +1078,25 @@ fn main() {
                     texts.push(t);
                 }
                 let (script, cfg) = draw_script(&mut rng, n_texts, &base_dir);
-                let recs = exec_script(&script, &texts, &base_dir, None);
+                let mut recs = exec_script(&script, &texts, &base_dir, None);
                 runs_done += 1;
+                let spawned: u64 = recs.iter().map(|x| x.threads_spawned).sum();
+                threads_spawned_total += spawned;
+                if spawned > 0 {
+                    // generate spawned threads whose schedule is not behind a seam: the same script
+                    // is executed three more times (statistical amplification; any difference from
+                    // the canonical outcome is still a violation, but its replay is not exact)
+                    for _ in 0..3 {
+                        let again = exec_script(&script, &texts, &base_dir, None);
+                        amplified_runs += 1;
+                        if again.len() == recs.len()
+                            && again.iter().zip(recs.iter()).any(|(a, b)| a.outcome != b.outcome)
+                        {
+                            recs = again;
+                            break;
+                        }
+                    }
+                }
                 for (i, rec) in recs.iter().enumerate() {
                     let st = &script.steps[i];
                     let id = ids[st.text];
@@ -1212,6 +1249,8 @@ fn main() {
                     v
                 }))
                 .set("firstcall_children", J::Int(firstcall_children as i128))
+                .set("threads_spawned_inside_generate", J::Int(threads_spawned_total as i128))
+                .set("amplified_runs", J::Int(amplified_runs as i128))
                 .set("generate_timeouts", J::Int(TIMEOUTS.load(Ordering::SeqCst) as i128))
                 .set("timeout_text_ids", J::Arr(timeout_texts.iter().map(|i| J::uz(*i)).collect()))
                 .set("wall_s", J::Int(((real_now_s() - t0) * 1000.0) as i128));
